@@ -416,11 +416,17 @@ def mechanism(v, prop, files, tag):
     cfg = write_cfg(f"tracemech_{prop}_{tag}.cfg", MECH_CFG)
 
     def one(f):
-        return f, tlc("TraceMech.tla", cfg, workers=1, env={"TRACE": f, "JAVA_TOOL_OPTIONS": JAVA_OPTS_TRACE},
-                      timeout=3000, xmx="3g", metatag=f"trm-{prop}-{os.path.basename(f)}-{os.getpid()}")
+        try:
+            return f, tlc("TraceMech.tla", cfg, workers=1, env={"TRACE": f, "JAVA_TOOL_OPTIONS": JAVA_OPTS_TRACE},
+                          timeout=900, xmx="3g", metatag=f"trm-{prop}-{os.path.basename(f)}-{os.getpid()}")
+        except ToolError as e:
+            return f, str(e)       # (mechanism level: a search that does not finish is drift, not a failure of the check)
 
     ok, drift = 0, []
     for f, r in parallel(one, files, n=NCPU):
+        if isinstance(r, str):
+            drift.append({"file": os.path.basename(f), "first_unexplained": "no explanation found in time: " + r[:120]})
+            continue
         v.cov["transitions"] += r.generated
         v.cov["states"] += r.distinct
         if r.ok:
